@@ -256,7 +256,7 @@ def run(ck, rng, validate):
             any(not v for v in fdict(src["outs"]).values())
     must = [k for k in targets if budget_on_seeded(k)][:40]
     targets = must + [k for k in targets if k not in set(must)]
-    budget = 6000 if ck.thorough else 220
+    budget = 3000 if ck.thorough else 220
     n = 0
     seen = set()
     for k in targets:
